@@ -14,6 +14,7 @@ type DocOpts struct {
 	Overlap      bool // scopes may overlap
 	Keychain     bool // may create users whose authenticator has no inline hash
 	OddAuth      bool // may create authenticators with odd/missing options
+	OddScopes    bool // may name handler / provider types nobody registered (the builder skips such scopes)
 	V6           bool // may use IPv6 prefixes
 	InvalidRegex bool
 	NoSpaces     bool
@@ -41,6 +42,13 @@ func GenDoc(r *Rand, o DocOpts) model.Doc {
 	for i := 0; i < ns; i++ {
 		s := model.SecretCfg{Name: fmt.Sprintf("sc%d", i), Secret: model.KeychainCfg{Group: "tacquito", Key: r.token("K")},
 			Handler: model.HandlerCfg{Type: 1}, Type: 1}
+		if o.OddScopes && r.Chance(12) {
+			if r.Chance(70) {
+				s.Handler.Type = 2 // SPAN: a valid handler type the reference server does not register
+			} else {
+				s.Type = 2 // DNS: a valid provider type the reference server does not register
+			}
+		}
 		np := 1 + r.Intn(2)
 		for k := 0; k < np; k++ {
 			var p string
